@@ -405,6 +405,7 @@ class QuicConnection:
         self._close_pending = False
         self._datagrams_pending: Deque[bytes] = deque()
         self._handshake_done_pending = False
+        self._key_update_pending = False
         self._ping_pending: list[int] = []
         self._probe_pending = False
         self._retire_connection_ids: list[int] = []
@@ -1108,7 +1109,14 @@ class QuicConnection:
         .. aioquic_transmit::
         """
         assert self._handshake_complete, "cannot change key before handshake completes"
-        self._cryptos[tls.Epoch.ONE_RTT].update_key()
+        if self._handshake_confirmed:
+            self._cryptos[tls.Epoch.ONE_RTT].update_key()
+        else:
+            # A key update must not be initiated prior to having confirmed
+            # the handshake, defer it.
+            #
+            # https://datatracker.ietf.org/doc/html/rfc9001#section-6.1
+            self._key_update_pending = True
 
     def reset_stream(self, stream_id: int, error_code: int) -> None:
         """
@@ -1794,6 +1802,9 @@ class QuicConnection:
             self._discard_epoch(tls.Epoch.HANDSHAKE)
             self._handshake_confirmed = True
             self._loss.peer_completed_address_validation = True
+            if self._key_update_pending:
+                self._cryptos[tls.Epoch.ONE_RTT].update_key()
+                self._key_update_pending = False
 
     def _handle_max_data_frame(
         self, context: QuicReceiveContext, frame_type: int, buf: Buffer
